@@ -582,7 +582,7 @@ fn to_rt(t: &Term) -> crate::rt::RT {
 impl Property for BuiltinProp {
     fn id(&self) -> &'static str { self.id }
     fn max_len(&self) -> usize { 96 }
-    fn budget(&self) -> (u64, u64) { (3000, 80_000) }
+    fn budget(&self) -> (u64, u64) { (12_000, 80_000) }
 
     fn check(&self, src: &mut dyn Src, rep: &mut Report) -> CaseResult {
         match self.aspect {
